@@ -91,7 +91,17 @@ func main() {
 				continue
 			}
 			out := &streams.Out{W: w, ID: c.List[2].Atom}
+			streams.ReaderShape = shapeOf(c.List[2].Atom) // sequential mode only: the concurrent mode never writes it
 			streams.Dispatch(c.List[1].Atom, c, out)
 		}
 	}
+}
+
+// shapeOf derives the reader delivery pattern of a case from its id (FNV-1a), so that a replay uses the same one.
+func shapeOf(id string) int {
+	h := uint32(2166136261)
+	for i := 0; i < len(id); i++ {
+		h = (h ^ uint32(id[i])) * 16777619
+	}
+	return int(h % 600)
 }
